@@ -468,6 +468,11 @@ struct OverloadSys : StreamBase {
         ov.push_back(OvOp{"<< (const char32_t*)nullptr", [](SS &s) { s << (const char32_t *)nullptr; }, ""});
         ov.push_back(OvOp{"<< (const char8_t*)nullptr", [](SS &s) { s << (const char8_t *)nullptr; }, ""});
         ov.push_back(OvOp{"<< std::filesystem::path", [](SS &s) { s << std::filesystem::path(std::u8string(u8s)); }, txt});
+        // paths whose text is not in "generic" form: the text of the path is appended as it is (u8string()), nothing is normalised
+        ov.push_back(OvOp{"<< std::filesystem::path (doubled separators)", [](SS &s) { s << std::filesystem::path("dir//sub///file"); }, "dir//sub///file"});
+        ov.push_back(OvOp{"<< std::filesystem::path (dot segments, trailing separator)", [](SS &s) { s << std::filesystem::path("./a/../b/./"); }, "./a/../b/./"});
+        ov.push_back(OvOp{"<< std::filesystem::path (//server/share, backslash)", [](SS &s) { s << std::filesystem::path("//server/share\\x"); }, "//server/share\\x"});
+        ov.push_back(OvOp{"<< std::filesystem::path (empty)", [](SS &s) { s << std::filesystem::path(); }, ""});
         ov.push_back(OvOp{"<< const char16_t*", [](SS &s) { s << u16txt.c_str(); }, txt});
         ov.push_back(OvOp{"<< const char32_t*", [](SS &s) { s << u32txt.c_str(); }, txt});
         ov.push_back(OvOp{"<< const char8_t*", [](SS &s) { s << u8s.c_str(); }, txt});
